@@ -135,8 +135,15 @@ def run(chk):
         desc = gen_can_desc(chk.rng)
         text = gen_schema.render(desc)
         fcp = serde_run.parse(text).unwrap()
+        # the declared per-signal options, read off a parse of their own (the generator is handed another object, so that nothing it
+        # does to its input can reach this side)
+        declared = {im.name: {sb.name: dict(sb.fields) for sb in im.signals} for im in serde_run.parse(text).unwrap().get_matching_impls("can")}
         res, err = observe(fcp)
         frames = []
+        after = {im.name: {sb.name: dict(sb.fields) for sb in im.signals} for im in fcp.get_matching_impls("can")}
+        if after != declared:
+            fails.append({"kind": "dbc-generation-changed-the-schema-it-was-given", "schema": text,
+                          "signal_blocks_before": declared, "signal_blocks_after": after})
         if res is None:
             obs = "None"
             chk.hist("generation", "raises:" + type(err).__name__)
@@ -181,6 +188,12 @@ def run(chk):
                                 chk.known_finding("dbc-float", "f32/f64 leaves are not marked as float in the DBC (no SIG_VALTYPE_)")
                             else:
                                 fails.append({"kind": "float-not-marked", "schema": text, "impl": im.name, "leaf": p.name, "signal": s})
+                        if s is not None:
+                            opts = declared.get(im.name, {}).get(p.name.split("::")[-1], {})
+                            want_ids = list(range(opts["mux_count"])) if opts.get("mux_count") is not None else None
+                            if s["muxids"] != want_ids:
+                                fails.append({"kind": "multiplexing-differs-from-signal-block", "schema": text, "impl": im.name, "leaf": p.name,
+                                              "declared": opts, "dbc_multiplexer_ids": s["muxids"]})
                         muxed |= s is not None and (s["ismux"] or s["muxids"] is not None)
                     if muxed or any(type(p.type) in (T.FloatType, T.DoubleType) for p in pieces):
                         continue
